@@ -250,6 +250,7 @@ type xGen struct {
 	cmds     int
 	findings bool
 	feat     map[string]bool
+	pool     []*xPart // symbols already used as list elements
 }
 
 func (x *xGen) rule(depth int, top bool) *xRule {
@@ -330,8 +331,39 @@ func (x *xGen) primary(depth int) *xPart {
 	}
 }
 
+// variant returns a list element whose provisional NAME equals that of `p` (a reference): the same
+// element (reuse must happen), or one that differs in language or structure (reuse must not happen).
+func (x *xGen) variant(p *xPart) *xPart {
+	cp := *p
+	switch x.r.Intn(5) {
+	case 0:
+		return &cp
+	case 1: // (.m X)
+		return &xPart{kind: xNested, rules: []*xRule{{prec: -1, parts: []*xPart{{kind: xMarker, name: "m0"}, &cp}}}}
+	case 2: // (X | %empty)
+		x.feat["nested-choice"] = true
+		return &xPart{kind: xNested, rules: []*xRule{{prec: -1, parts: []*xPart{&cp}}, {prec: -1}}}
+	case 3: // (X -> A1)
+		x.feat["arrow"] = true
+		return &xPart{kind: xNested, rules: []*xRule{{prec: -1, arrow: "A1", parts: []*xPart{&cp}}}}
+	default: // (X { })
+		x.feat["command"] = true
+		x.cmds++
+		return &xPart{kind: xNested, rules: []*xRule{{prec: -1, parts: []*xPart{&cp, {kind: xCommand, cmd: x.cmds}}}}}
+	}
+}
+
 func (x *xGen) quant(depth int) *xPart {
 	p := &xPart{kind: xQuant, plus: x.r.Intn(2) == 0, inner: x.primary(depth)}
+	// bias toward name collisions in extractNonterm: lists over the same symbol, equal or slightly different
+	if p.inner.kind == xSym && !p.inner.optRef {
+		if len(x.pool) > 0 && x.r.Intn(100) < 40 {
+			p.inner = x.variant(x.pool[x.r.Intn(len(x.pool))])
+			x.feat["name-collision"] = true
+		} else {
+			x.pool = append(x.pool, p.inner)
+		}
+	}
 	if p.inner.kind == xQuant || p.inner.kind == xList {
 		x.feat["nested-list"] = true
 	}
@@ -1317,7 +1349,8 @@ func c13(c *Ctx) {
 			alphabet = append(alphabet, cv.termSym(t))
 		}
 		L := c13MaxLen(xg.k, thorough)
-		tag := ""
+		// the grammar as written, for replays (a `#…` token is ignored by the Lean driver)
+		tag := " #src:" + strings.ReplaceAll(strings.TrimSpace(xg.Pretty()), " ", "\u00b7") + "[" + path + "]"
 		if emptySet {
 			tag += " #[C13-empty-set]"
 		}
